@@ -893,16 +893,16 @@ def run(ctx):
     for J in range(1, 5):
         for K in range(1, 6):
             cases.append(gen_table(ctx, rng, J, K))
-    n_w = ctx.budget(40, 1500)
-    n_m = ctx.budget(60, 2500)
-    n_bad = ctx.budget(40, 600)
+    n_w = ctx.budget(80, 1500)
+    n_m = ctx.budget(160, 2500)
+    n_bad = ctx.budget(70, 600)
     for _ in range(n_w):
         cases.append(gen_table(ctx, rng))
     for _ in range(n_m):
         cases.append(gen_multi(ctx, rng))
     for _ in range(n_bad):
         cases.append(gen_malformed(ctx, rng))
-    full_quota = [ctx.budget(6, 60)]
+    full_quota = [ctx.budget(8, 60)]
 
     def meta_budget(c):
         if c.get('malformed'):
